@@ -118,6 +118,9 @@ func (s *Server) handleConnection(ctx context.Context, conn net.Conn) {
 	}
 
 	s.stats.incrementConnections()
+	// The slot belongs to the connection, not to a shell request: give it back
+	// exactly once when the connection ends, whatever happened on it.
+	defer s.stats.decrementConnections()
 	go gossh.DiscardRequests(reqs)
 	for newChannel := range chans {
 		go s.handleChannel(ctx, sshConn, newChannel)
@@ -207,7 +210,6 @@ func (s *Server) handleRequests(ctx context.Context, sshConn gossh.Conn,
 				if err := sshConn.Wait(); err != nil && err != io.EOF {
 					dlog.Server.Error(user, err)
 				}
-				s.stats.decrementConnections()
 				dlog.Server.Info(user, "Good bye Mister!")
 				terminate()
 			}()
